@@ -155,8 +155,14 @@ def run(run: C.Run):
     for n in range(1, total + 1):
         for runs in run_lengths(n):
             labels = labels_of_runs(runs)
+            # the same runs carrying label VALUES that are not increasing along the axis (still sequential)
+            perm = list(range(len(runs)))
+            rng.shuffle(perm)
+            relabelled = [perm[x] for x in labels]
             for chunks in G.compositions(n):
                 bw.append((chunks, labels, True))
+                if relabelled != labels:
+                    bw.append((chunks, relabelled, True))
     for _ in range(3000 if thorough else 600):   # periodic / irregular (not sequential): well-formedness only
         n = rng.randint(2, 14)
         labels = G.rand_labels(rng, n, rng.randint(1, 4), style=rng.choice(["periodic", "random", "runs"]))
